@@ -1,7 +1,7 @@
 //! C14 — Client, on-chain decode and CPI views of an instruction agree.
 //!
 //! Op lines (state = current set, client value, tampering, built instruction, last run):
-//!   `set <name> <shape> <disc-hex>`   → `ok min=<MIN_LEN> len=<AccountLen> copt=<ContainsOption>`
+//!   `set <name> <shape> <arg-type> <idx>` → `ok min=<MIN_LEN> len=<AccountLen> copt=<ContainsOption>`
 //!   `client <client-val>`             → `ok <key:s:w,…>`          the metas `extend_account_metas` pushes
 //!   `extra <key>…`                    → `ok`                      extra readonly accounts appended after the metas
 //!   `drop <i> s|w`                    → `ok`                      account i is created without that flag
@@ -220,45 +220,78 @@ fn o_ser_arg(a: &Sexp, out: &mut Vec<u8>) {
     }
 }
 
-/// the decode argument a client must send for its value (`None`: ragged nested vectors)
-fn o_arg_of(shape: &Sexp, v: &Sexp) -> Option<Sexp> {
+/// the argument type below one layer of a shape
+fn ty_child(tag: &str, ty: &Sexp, i: usize) -> Sexp {
+    let (tt, ta) = sh(ty);
+    match (tag, tt) {
+        ("arr", "arreach") | ("vec", "each") => ta[1].clone(),
+        ("vec", "len") => ta[0].clone(),
+        ("struct", "fields") => ta[i].clone(),
+        _ => ty.clone(),
+    }
+}
+/// `Some(N)` if a `Vec` with this argument type takes exactly N elements (per-element arguments)
+fn ty_vec_count(ty: &Sexp) -> Option<usize> {
+    let (tt, ta) = sh(ty);
+    (tt == "each").then(|| ta[0].as_atom().unwrap().parse().unwrap())
+}
+
+/// the decode argument (of type `ty`) a client must send for its value (`None`: not expressible, e.g. ragged
+/// nested vectors under a single shared length argument)
+fn o_arg_for(shape: &Sexp, ty: &Sexp, v: &Sexp) -> Option<Sexp> {
     let (tag, a) = sh(shape);
+    let (tt, _) = sh(ty);
+    let same = |inner: Vec<Sexp>, dflt: Sexp| -> Option<Sexp> {
+        let first = inner.first().cloned().unwrap_or(dflt);
+        inner.iter().all(|x| *x == first).then_some(first)
+    };
     Some(match tag {
         "single" => Sexp::atom("u"),
         "opt" => match v.items("present") {
-            Some([x]) => o_arg_of(&a[0], x)?,
-            _ => default_arg(&a[0]),
+            Some([x]) => o_arg_for(&a[0], ty, x)?,
+            _ => default_arg(ty),
         },
         "vec" => {
             let vs = v.items("many")?;
-            let inner: Vec<Sexp> = vs.iter().map(|x| o_arg_of(&a[0], x)).collect::<Option<_>>()?;
-            let first = inner.first().cloned().unwrap_or_else(|| default_arg(&a[0]));
-            if inner.iter().any(|x| *x != first) {
-                return None;
+            let et = ty_child("vec", ty, 0);
+            let inner: Vec<Sexp> = vs.iter().map(|x| o_arg_for(&a[0], &et, x)).collect::<Option<_>>()?;
+            if let Some(n) = ty_vec_count(ty) {
+                if vs.len() != n {
+                    return None;
+                }
+                Sexp::tagged("each", inner)
+            } else {
+                Sexp::tagged("len", vec![Sexp::atom(vs.len().to_string()), same(inner, default_arg(&et))?])
             }
-            Sexp::tagged("len", vec![Sexp::atom(vs.len().to_string()), first])
         }
         "arr" | "rest" => {
             let e = if tag == "arr" { &a[1] } else { &a[0] };
-            let inner: Vec<Sexp> = v.items("many")?.iter().map(|x| o_arg_of(e, x)).collect::<Option<_>>()?;
-            let first = inner.first().cloned().unwrap_or_else(|| default_arg(e));
-            if inner.iter().any(|x| *x != first) {
-                return None;
+            let et = ty_child(tag, ty, 0);
+            let inner: Vec<Sexp> = v.items("many")?.iter().map(|x| o_arg_for(e, &et, x)).collect::<Option<_>>()?;
+            if tag == "arr" && tt == "arreach" {
+                Sexp::tagged("arreach", inner)
+            } else {
+                same(inner, default_arg(&et))?
             }
-            first
         }
-        "boxed" => o_arg_of(&a[0], v)?,
-        "struct" => Sexp::tagged("fields", a.iter().zip(v.items("many")?).map(|(s, x)| o_arg_of(s, x)).collect::<Option<_>>()?),
+        "boxed" => o_arg_for(&a[0], ty, v)?,
+        "struct" => Sexp::tagged(
+            "fields",
+            a.iter().zip(v.items("many")?).enumerate().map(|(i, (s, x))| o_arg_for(s, &ty_child("struct", ty, i), x)).collect::<Option<_>>()?,
+        ),
         _ => return None,
     })
 }
-fn default_arg(shape: &Sexp) -> Sexp {
-    let (tag, a) = sh(shape);
-    match tag {
-        "vec" => Sexp::tagged("len", vec![Sexp::atom("0"), default_arg(&a[0])]),
-        "opt" | "boxed" | "rest" => default_arg(&a[0]),
-        "arr" => default_arg(&a[1]),
-        "struct" => Sexp::tagged("fields", a.iter().map(default_arg).collect()),
+/// the argument of a type for "nothing there" (absent optional, empty vector)
+fn default_arg(ty: &Sexp) -> Sexp {
+    let (tt, ta) = sh(ty);
+    match tt {
+        "len" => Sexp::tagged("len", vec![Sexp::atom("0"), default_arg(&ta[0])]),
+        "each" | "arreach" => {
+            let n: usize = ta[0].as_atom().unwrap().parse().unwrap();
+            Sexp::tagged(tt, vec![default_arg(&ta[1]); n])
+        }
+        "fields" => Sexp::tagged("fields", ta.iter().map(default_arg).collect()),
         _ => Sexp::atom("u"),
     }
 }
@@ -459,6 +492,7 @@ struct St<'a> {
     listed: Option<Vec<String>>,
     entry: Option<&'a SetEntry>,
     shape: Option<Sexp>,
+    argty: Option<Sexp>,
     client: Option<Sexp>,
     metas: Vec<AccountMeta>,
     extras: Vec<String>,
@@ -520,19 +554,20 @@ fn exec_inner<'a>(rec: &mut Recorder, table: &'a [SetEntry], st: &mut St<'a>, t:
             }
             format!("ok {}", discs.len())
         }
-        ["set", name, shape, idx] => {
+        ["set", name, shape, argty, idx] => {
             let Some(listed) = st.listed.clone() else { return bad() };
             let Some(idx) = small_dec(idx, 3) else { return bad() };
             let Some(disc) = listed.get(idx as usize) else { return bad() };
             let Some(e) = table.iter().find(|e| e.name == *name) else { return bad() };
             let real_shape = (e.shape)();
-            if hex(&(e.disc)()) != *disc || real_shape.to_string() != *shape {
+            if hex(&(e.disc)()) != *disc || real_shape.to_string() != *shape || (e.argty)().to_string() != *argty {
                 return bad();
             }
             *st = St { listed: Some(listed), ..St::default() };
             let (min, len, copt) = (e.statics)();
             st.entry = Some(e);
             st.shape = Some(real_shape.clone());
+            st.argty = Some((e.argty)());
             // oracle: the static facts
             if min != o_min_len(&real_shape) {
                 pend("min_len_wrong", &format!("{line}: MIN_LEN={min}, shape says {}", o_min_len(&real_shape)));
@@ -690,7 +725,7 @@ fn exec_inner<'a>(rec: &mut Recorder, table: &'a [SetEntry], st: &mut St<'a>, t:
             let trace = Tr { val: tval, run: trun };
             let tampered = st.drops.iter().any(|d| !st.grants.contains(d));
             let ambiguous = o_ambiguous(&shape, &client);
-            let arg_fits = o_arg_of(&shape, &client).as_ref() == Some(&darg);
+            let arg_fits = o_arg_for(&shape, st.argty.as_ref().unwrap(), &client).as_ref() == Some(&darg);
             let in_claim = !ambiguous && arg_fits && (st.extras.is_empty() || !o_has_rest(&shape));
             match direct {
                 Direct::DataErr => {
@@ -760,7 +795,7 @@ fn exec_inner<'a>(rec: &mut Recorder, table: &'a [SetEntry], st: &mut St<'a>, t:
                 return bad();
             }
             let Some((class, record)) = &run.cpi else { return "err:nocpi".into() };
-            let in_claim = !o_ambiguous(&shape, &client) && o_arg_of(&shape, &client).as_ref() == Some(&darg) && st.extras.is_empty();
+            let in_claim = !o_ambiguous(&shape, &client) && o_arg_for(&shape, st.argty.as_ref().unwrap(), &client).as_ref() == Some(&darg) && st.extras.is_empty();
             let has_absent = real_metas(&ix.accounts).iter().any(|m| m.0 == "pid");
             match (class.as_str(), record) {
                 ("ok", Some(r)) => {
@@ -895,7 +930,7 @@ impl Gen<'_> {
         self.next_key += 1;
         format!("k{}", self.next_key)
     }
-    fn value(&mut self, shape: &Sexp, max_len: u64) -> Sexp {
+    fn value(&mut self, shape: &Sexp, ty: &Sexp, max_len: u64) -> Sexp {
         let (tag, a) = sh(shape);
         match tag {
             "single" => {
@@ -920,29 +955,32 @@ impl Gen<'_> {
                 if self.rng.chance(1, 2) {
                     Sexp::atom("absent")
                 } else {
-                    Sexp::tagged("present", vec![self.value(&a[0], max_len)])
+                    Sexp::tagged("present", vec![self.value(&a[0], ty, max_len)])
                 }
             }
             "vec" | "rest" => {
-                let n = self.rng.below(max_len + 1);
-                // nested vectors must be uniform (one inner length argument)
-                let items: Vec<Sexp> = (0..n).map(|_| self.value(&a[0], max_len)).collect();
+                // per-element arguments fix the number of elements; a shared inner argument needs uniform inner
+                // vectors (non-uniform values are filtered out by the caller)
+                let n = if tag == "vec" { ty_vec_count(ty).map(|n| n as u64) } else { None }.unwrap_or_else(|| self.rng.below(max_len + 1));
+                let et = ty_child(tag, ty, 0);
+                let items: Vec<Sexp> = (0..n).map(|_| self.value(&a[0], &et, max_len)).collect();
                 Sexp::tagged("many", items)
             }
             "arr" => {
                 let n: u64 = a[0].as_atom().unwrap().parse().unwrap();
-                Sexp::tagged("many", (0..n).map(|_| self.value(&a[1], max_len)).collect())
+                let et = ty_child("arr", ty, 0);
+                Sexp::tagged("many", (0..n).map(|_| self.value(&a[1], &et, max_len)).collect())
             }
-            "boxed" => self.value(&a[0], max_len),
-            "struct" => Sexp::tagged("many", a.iter().map(|s| self.value(s, max_len)).collect()),
+            "boxed" => self.value(&a[0], ty, max_len),
+            "struct" => Sexp::tagged("many", a.iter().enumerate().map(|(i, s)| self.value(s, &ty_child("struct", ty, i), max_len)).collect()),
             _ => Sexp::atom("absent"),
         }
     }
 }
 
 /// all present/absent choices for the options of a shape with the vec/rest lengths given by `len`
-fn enumerate(shape: &Sexp, len: usize, ctr: &mut u64, cap: usize) -> Vec<Sexp> {
-    fn go(shape: &Sexp, len: usize, ctr: &mut u64) -> Vec<Sexp> {
+fn enumerate(shape: &Sexp, ty: &Sexp, len: usize, ctr: &mut u64, cap: usize) -> Vec<Sexp> {
+    fn go(shape: &Sexp, ty: &Sexp, len: usize, ctr: &mut u64) -> Vec<Sexp> {
         let (tag, a) = sh(shape);
         match tag {
             "single" => {
@@ -957,19 +995,20 @@ fn enumerate(shape: &Sexp, len: usize, ctr: &mut u64, cap: usize) -> Vec<Sexp> {
             }
             "opt" => {
                 let mut v = vec![Sexp::atom("absent")];
-                v.extend(go(&a[0], len, ctr).into_iter().map(|x| Sexp::tagged("present", vec![x])));
+                v.extend(go(&a[0], ty, len, ctr).into_iter().map(|x| Sexp::tagged("present", vec![x])));
                 v
             }
-            "boxed" => go(&a[0], len, ctr),
+            "boxed" => go(&a[0], ty, len, ctr),
             "vec" | "rest" | "arr" | "struct" => {
                 let elems: Vec<&Sexp> = match tag {
                     "struct" => a.iter().collect(),
                     "arr" => vec![&a[1]; a[0].as_atom().unwrap().parse().unwrap()],
+                    "vec" => vec![&a[0]; ty_vec_count(ty).unwrap_or(len)],
                     _ => vec![&a[0]; len],
                 };
                 let mut acc: Vec<Vec<Sexp>> = vec![vec![]];
-                for e in elems {
-                    let opts = go(e, len, ctr);
+                for (i, e) in elems.into_iter().enumerate() {
+                    let opts = go(e, &ty_child(tag, ty, i), len, ctr);
                     let mut next = vec![];
                     for pre in &acc {
                         for o in &opts {
@@ -988,12 +1027,12 @@ fn enumerate(shape: &Sexp, len: usize, ctr: &mut u64, cap: usize) -> Vec<Sexp> {
             _ => vec![],
         }
     }
-    let mut v = go(shape, len, ctr);
+    let mut v = go(shape, ty, len, ctr);
     v.truncate(cap);
     v
 }
 
-fn emit_group<'a>(rec: &mut Recorder, table: &'a [SetEntry], st: &mut St<'a>, rng: &mut Rng, shape: &Sexp, client: &Sexp, perturb: bool) {
+fn emit_group<'a>(rec: &mut Recorder, table: &'a [SetEntry], st: &mut St<'a>, rng: &mut Rng, shape: &Sexp, ty: &Sexp, client: &Sexp, perturb: bool) {
     exec(rec, table, st, &format!("client {client}"));
     let n = st.metas.len();
     let mut tampered = false;
@@ -1029,7 +1068,7 @@ fn emit_group<'a>(rec: &mut Recorder, table: &'a [SetEntry], st: &mut St<'a>, rn
             exec(rec, table, st, &format!("grant {} {}", rng.below(n as u64), if rng.chance(1, 2) { "s" } else { "w" }));
         }
     }
-    let mut darg = o_arg_of(shape, client).unwrap_or_else(|| default_arg(shape));
+    let mut darg = o_arg_for(shape, ty, client).unwrap_or_else(|| default_arg(ty));
     if perturb && rng.chance(1, 6) {
         darg = bump_len(&darg, rng);
     }
@@ -1088,7 +1127,9 @@ pub fn run(args: &Args) {
     let _ = name_of_key(&PID); // build the name table before any fork
     let table = registry();
     let mut rec = Recorder::new(
-        "one case per (derived account set, batch): every present/absent combination of its optional accounts at vec/rest lengths 0..2 \
+        "derived account sets = the curated family (every building block and pairwise nesting, zero-account sets, tuple and \
+         generic derived sets, every decode-argument form) + 30 seeded-random generated sets (bin/gen_c14_sets.py); \
+         one case per (derived account set, batch): every present/absent combination of its optional accounts at vec/rest lengths 0..2 \
          (capped), then PRNG-driven values (lengths 0..3, default/explicit/wrong fixed addresses, accounts that equal the program id, \
          extra trailing accounts, one required flag dropped, surplus flags granted, one vector length argument off by one). A case is non-trivial when it \
          contains a run with an absent optional, a run with a non-empty vec/rest, or a rejected (validation / decode error) run; \
@@ -1130,11 +1171,14 @@ pub fn run(args: &Args) {
     let (enum_cap, n_batches, per_batch) = if thorough { (1024, 20, 100) } else { (128, 4, 40) };
     for (si, e) in table.iter().enumerate() {
         let shape = (e.shape)();
-        let header = format!("set {} {shape} {si}", e.name);
+        let ty = (e.argty)();
+        let header = format!("set {} {shape} {ty} {si}", e.name);
         // ---- boundary enumeration
-        for len in 0..=2usize {
+        // the seeded-random generated sets get the full treatment in the thorough tier only
+        let light = e.generated && !thorough;
+        for len in 0..=(if light { 1 } else { 2usize }) {
             let mut ctr = 0u64;
-            let vals = enumerate(&shape, len, &mut ctr, enum_cap);
+            let vals = enumerate(&shape, &ty, len, &mut ctr, enum_cap);
             if len > 0 && !(o_has_rest(&shape) || shape.to_string().contains("vec")) {
                 continue;
             }
@@ -1143,7 +1187,7 @@ pub fn run(args: &Args) {
             exec(&mut rec, &table, &mut st, &table_line);
             exec(&mut rec, &table, &mut st, &header);
             for v in &vals {
-                emit_group(&mut rec, &table, &mut st, &mut rng, &shape, v, false);
+                emit_group(&mut rec, &table, &mut st, &mut rng, &shape, &ty, v, false);
             }
             rec.bump(&format!("set:{}", e.name));
             mark(&mut rec);
@@ -1152,19 +1196,19 @@ pub fn run(args: &Args) {
             }
         }
         // ---- random
-        for batch in 0..n_batches {
+        for batch in 0..(if light { 1 } else { n_batches }) {
             rec.case(&format!("case {si}.r{batch} random {}", e.name));
             let mut st = St::default();
             exec(&mut rec, &table, &mut st, &table_line);
             exec(&mut rec, &table, &mut st, &header);
             for _ in 0..per_batch {
                 let mut g = Gen { rng: &mut rng, next_key: 0, special: 6 };
-                let v = g.value(&shape, 3);
+                let v = g.value(&shape, &ty, 3);
                 // uniform nested vectors only (else there is no decode argument for the value)
-                if o_arg_of(&shape, &v).is_none() {
+                if o_arg_for(&shape, &ty, &v).is_none() {
                     continue;
                 }
-                emit_group(&mut rec, &table, &mut st, &mut rng, &shape, &v, true);
+                emit_group(&mut rec, &table, &mut st, &mut rng, &shape, &ty, &v, true);
             }
             mark(&mut rec);
             if batch == 0 && ["S13", "S37", "V05"].contains(&e.name) {
